@@ -420,6 +420,58 @@ def run_program(L, data, evs, root, program, label, mode, info, collect=None):
             L.destroy(res.cif)
 
 
+def run_categories(ctx, L, data, doc, rng, mode):
+    """"Loop categories may be assigned via callback" (cif.h, misc/parser_callbacks.c): every loop_start callback tags
+    the loop it is handed, and also tries the reserved category.  The property says nothing about categories, so the
+    result codes of these calls and the categories found afterwards are only counted; what is judged is what the
+    property does state: the callbacks and the stored items and structure are those of the document whatever a handler
+    does with the handles it is given, in storing and in syntax-only mode (plus the always-on memory monitors: in
+    syntax-only mode the handle is an unattached loop object that owns its category)."""
+    assigned = []
+
+    def hook(handle):
+        k = len(assigned)
+        cat = None if k % 5 == 4 else ('cat\u00e9_%d' % k if k % 2 else 'K%d' % k)
+        rc = L.loop_set_category(handle, cat)
+        rc2, names = L.loop_get_names(handle)
+        rc3, back = L.loop_get_category(handle)
+        assigned.append((tuple(sorted(N.norm(x) for x in names)), cat))
+        ctx.add('category_calls_at_parse_time', '%s:set=%d:reported-back=%s' % (mode, rc, rc3 == CIF_OK and back == cat))
+        if k % 7 == 3:
+            rc4 = L.loop_set_category(handle, '')
+            ctx.add('category_calls_at_parse_time', '%s:set-reserved=%d' % (mode, rc4))
+    res = parsing.parse(L, data, parsing.make_opts(), 'new' if mode == 'store' else None, 'accept', loop_start_hook=hook)
+    try:
+        for k, d in res.problems:
+            raise Mismatch(k, d)
+        if res.rc != CIF_OK or res.errors:
+            raise Mismatch('category:parse:%s' % mode, 'parse of a well-formed document whose loop_start handler assigns categories -> %d, errors %r' % (res.rc, res.errors[:2]))
+        ctx.count('categories_assigned', len(assigned))
+        if mode != 'store':
+            return
+        d = D.dump(L, res.cif)
+        found = []
+
+        def strip(c):
+            loops = []
+            for cat, names, pk in c[2]:
+                if cat != '':
+                    found.append((tuple(sorted(N.norm(x) for x in names)), cat))
+                    cat = None
+                loops.append((cat, names, pk))
+            loops.sort(key=repr)
+            return (c[0], tuple(strip(f) for f in c[1]), tuple(loops))
+        stripped = ('cif', tuple(strip(b) for b in d[1]))
+        want = GC.expected_dump(doc, 2)
+        if stripped != want:
+            raise Mismatch('category:content', 'assigning categories at loop_start changed the items or structure stored: %s' % D.first_difference(stripped, want))
+        if sorted(found, key=repr) == sorted(assigned, key=repr):
+            ctx.count('documents_whose_assigned_categories_were_all_found_stored')
+    finally:
+        if res.cif:
+            L.destroy(res.cif)
+
+
 def describe(program, evs):
     return [(i, evs[i].kind, short(evs[i].payload), a) for i, a in sorted(program.items())][:6]
 
@@ -501,6 +553,8 @@ def run_document(ctx, L, n):
             raise Mismatch('events:syntax-only:syntax-sequence', 'syntax callbacks differ between storing and syntax-only mode: %s' % D.first_difference(tuple(s1), tuple(s2), 'events'))
         ctx.count('all_continue_documents')
         ctx.count('callbacks_in_documents', len(evs))
+        run_categories(ctx, L, data, doc, rng, 'store')
+        run_categories(ctx, L, data, doc, rng, 'syntax')
         # programs
         nev = len(evs)
         progs = []
@@ -568,6 +622,9 @@ def run(env):
             callbacks_in_documents=res.count('callbacks_in_documents'),
             datanames_checked=res.count('datanames_checked'), keywords_checked=res.count('keywords_checked'),
             whitespace_units_checked=res.count('whitespace_units_checked'),
+            categories_assigned_in_loop_start_callbacks=res.count('categories_assigned'),
+            documents_whose_assigned_categories_were_all_found_stored=res.count('documents_whose_assigned_categories_were_all_found_stored'),
+            category_calls_at_parse_time_observed_not_judged=sorted(res.sets.get('category_calls_at_parse_time', ())),
             program_kinds=sorted(res.sets.get('program_kinds', ()))[:120], crashes=res.crashes),
         violations=res.violations, inconclusive=inconclusive,
         assumptions=['end callbacks of skipped elements and of parents after SKIP_SIBLINGS may or may not be delivered',
